@@ -51,6 +51,11 @@ type Case struct {
 	DocShape    *shape            `json:"docless_shape,omitempty"`
 	DocModelled bool              `json:"docless_modelled,omitempty"`
 	DocRendered map[string]string `json:"docless_rendered,omitempty"`
+	// suite `hdrs`: a header block ("hex:<digits>" = raw bytes), the class utils.ParseHeaders gave it
+	// (0 nil map, 1 empty map, 2 entries, 8 panic), whether the model's scanner is expected to call it refused
+	HdrBlock   string `json:"header_block,omitempty"`
+	HdrClass   int64  `json:"observed_class,omitempty"`
+	HdrClaimed bool   `json:"claimed_refused,omitempty"`
 }
 
 type LoadObs struct {
@@ -343,6 +348,7 @@ func main() {
 		filesRun = "run_files_nil"
 	}
 	o.DeclareSuite("files", "From Verif Require Import C05.Model C05.Decode.", "case_files", filesRun)
+	o.DeclareSuite("hdrs", "From Verif Require Import C05.Headers.", "case_hdrs", "run_hdrs")
 	o.Rule("hand-written witnesses of the known defect classes; every single-defect variant of a good flow (structure, " +
 		"stream/flow/processor ends, conditions, dangling processor / flow references, processor types and parameters, " +
 		"roots, unconnected processors, duplicate connections, cycles in either direction, self references); stale foreign " +
@@ -360,9 +366,14 @@ func main() {
 		"<= 16, else a sample with both extremes) as request and as response; degenerate files (83 fixed lexical shapes: no " +
 		"document, null document, {}, [], scalars, markers, BOMs, tabs, control bytes; 13 two-document shapes; random compositions " +
 		"of 1-4 degenerate lines; null-valued keys) as the only / an additional file of flows/, quotas/, path_params/, the processor " +
-		"definitions and as gateway configuration file, the lexical ones through the model's scanner and file loader (suite files).  distinct = distinct (configuration, observed " +
+		"definitions and as gateway configuration file, the lexical ones through the model's scanner and file loader (suite files); " +
+		"header blocks textproto.ReadMIMEHeader refuses (line without colon, leading space / tab, stray CR, empty or invalid name, control " +
+		"and non-ASCII bytes, no final newline; 38 fixed + random compositions) next to well-formed ones, through the gateway's SPOE entry " +
+		"(routing.processRequest / processResponse) against one accepted flow per processor of the zoo in which it runs on a request, on a " +
+		"response with / without the captured request and after an early response, and a chain of mutating processors; every block " +
+		"through utils.ParseHeaders and the model's scanner (suite hdrs).  distinct = distinct (configuration, observed " +
 		"verdict) resp. (configuration, selection, headers, observed events); non-trivial = load: accepted or rejected by " +
-		"the graph stage; txn: >= 2 processors ran or the hand-over continuation ran; files: a non-empty file the scanner decides")
+		"the graph stage; txn: >= 2 processors ran or the hand-over continuation ran; files: a non-empty file the scanner decides; hdrs: a block the scanner calls refused")
 
 	var k Case
 	if _, ok := o.ReplayCase(&k); ok {
@@ -466,6 +477,9 @@ func main() {
 	// the lexical shapes go through the model's scanner and file loader as well (suite `files`)
 	runDocless(o, doclessItems(r.Fork(97), o.Scale(120, 1500, 400)))
 	runRaw(o, trafficItems(r.Fork(99), o.Scale(60, 400, 200)))
+	// 6c. header blocks the gateway cannot parse, through the SPOE entry (routing.processRequest /
+	// processResponse) against one flow per processor of the zoo; every block through suite `hdrs` as well
+	runRawHdr(o, rawHdrItems(r.Fork(96), o.Scale(10, 120, 40)))
 
 	// 7. processor zoo (monitor only) + its coverage
 	zoo := zooItems(r.Fork(98), o.Scale(24, 200, 80))
@@ -510,6 +524,8 @@ func replay(o *c.Out, k *Case) {
 			it.Txns = []Txn{*k.Txn}
 		}
 		runItems(o, []Item{it})
+	case "hdrs":
+		recordHdrBlock(o, strings.TrimPrefix(k.Label, "hdrs:"), k.HdrBlock, map[string]bool{})
 	case "docless":
 		sh := shape{Name: "replayed"}
 		if k.DocShape != nil {
